@@ -137,6 +137,7 @@ type State struct {
 	// array first read after a yield is not the initial one (other steps ran)
 	Epoch    int
 	initDecl map[string]bool // initial heap arrays already declared
+	Stab     []*stabTrack    // invariants of timer callbacks tracked on this path (stable.go)
 }
 
 func (s *State) top() *Frame { return s.Stack[len(s.Stack)-1] }
@@ -151,6 +152,7 @@ func (s *State) clone() *State {
 		Path:    append([]string(nil), s.Path...),
 		CallCount: make(map[string]int, len(s.CallCount)),
 		Epoch:     s.Epoch,
+		Stab:      append([]*stabTrack(nil), s.Stab...),
 	}
 	if s.initDecl != nil {
 		n.initDecl = make(map[string]bool, len(s.initDecl))
